@@ -65,11 +65,15 @@ PRIMS = ["uvarint", "svarint", "byte", "bool", "int8", "uint8", "fixed_int32", "
 # leaf multiplies the path count by its byte length, which the code under test forks on anyway)
 SCALARS = [["int8"], ["uint8"], ["int16"], ["uint16"], ["int32"], ["uint32"], ["int64"], ["uint64"], ["size"], ["bool"],
            ["f32"], ["f64"], ["c32"], ["c64"], ["string"], ["date"], ["time"], ["datetime"]]
+# a union with more than 127 cases: the tag index no longer fits in a one-byte varint (docs/reference/binary.md: "The index is
+# written as an unsigned varint")
+WIDE_UNION = ["union", [["bool"]] * 130]
 COMPOSITES = [
     ["optional", ["int32"]],
     ["optional", ["string", ["", "hé"]]],
     ["union", [["int16"], ["bool"]]],
     ["union", [None, ["uint8"], ["string", ["", "ab"]]]],
+    WIDE_UNION,
     ["vector", ["uint8"]],
     ["vector", ["int16"]],
     ["vector", ["optional", ["bool"]]],
@@ -89,6 +93,8 @@ STREAMS = [(["stream", ["uint8"]], v) for v in ("list", "generator", "iter")] + 
 def tname(t):
     if t is None:
         return "null"
+    if isinstance(t, list) and t and t[0] == "union" and len(t[1]) > 8:
+        return "union<%d x %s>" % (len(t[1]), tname(t[1][-1]))
     if isinstance(t, list) and t and isinstance(t[0], str):
         args = []
         for a in t[1:]:
